@@ -345,6 +345,9 @@ func (vf *VerifyFunc) doCall(st *State, fr *Frame, in ssa.Instruction, cc *ssa.C
 		}
 	}
 	if fc != nil {
+		if top {
+			vf.checkCalleeLocks(st, in, static, args, label)
+		}
 		old := st.snapshot()
 		res := vf.applyContract(st, fr, in, fc, cc, args, fnv, label)
 		after(res, old)
@@ -384,6 +387,9 @@ func (vf *VerifyFunc) doCall(st *State, fr *Frame, in ssa.Instruction, cc *ssa.C
 			after(r, nil)
 			return r, false
 		}
+	}
+	if top {
+		vf.checkCalleeLocks(st, in, static, args, label)
 	}
 	// unknown effects
 	if key == "" {
